@@ -192,6 +192,17 @@ def search(ctx, budget):
     for i in range(n):
         if i % 8 == 7:
             segs = [oc.rand_seg_pts(rng, rng.choice([2, 3, 4]), rng.choice(["int", "arch", "grid", "float"])) for _ in range(rng.randint(1, 6))]
+            if rng.random() < 0.6:
+                # a segment whose two ends lie inside the box of the segments before it while its middle bulges out of that box
+                bx = [oc.mkseg(s).bounds() for s in segs]
+                l, b_, r, tp = min(q.left for q in bx), min(q.bottom for q in bx), max(q.right for q in bx), max(q.top for q in bx)
+                w, h = max(r - l, 1.0), max(tp - b_, 1.0)
+                a = (l + 0.3 * w, b_ + 0.5 * h)
+                c = (l + 0.7 * w, b_ + 0.5 * h)
+                d = rng.choice([(0.0, 3 * h + 5), (0.0, -3 * h - 5), (3 * w + 5, 0.0), (-3 * w - 5, 0.0)])
+                m = ((a[0] + c[0]) / 2 + d[0], (a[1] + c[1]) / 2 + d[1])
+                bulge = [a, m, c] if rng.random() < 0.5 else [a, (a[0] + d[0], a[1] + d[1]), (c[0] + d[0], c[1] + d[1]), c]
+                segs.insert(rng.randint(1, len(segs)), bulge)
             inp = {"segs": segs}
             kind = "path"
         else:
